@@ -384,3 +384,76 @@ SCENARIOS.append(Scenario("C05.rules.HardSwishFusionFromHardSigmoid", s_hardswis
                            ("onnxscript/rewriter/rules/common/_fuse_hardswish.py", "HardSwishFusionFromHardSigmoid.rewrite")],
                           trusted=["ONNX HardSigmoid / HardSwish definitions and attribute defaults", "numpy.isclose(a, b) = |a - b| <= atol + rtol*|b|"],
                           assumptions=["floats treated as reals"]))
+
+
+def s_remove_optional_bias(ctx, which):
+    """_remove_optional_bias: Op(x, w, ..., b) -> Op(x, w, ...) only if EVERY element of the constant bias is zero (generic
+    element e of the bias: `(bias == 0).all()` must imply e == 0); the replacement keeps all other operands in order and
+    all attributes; a bias that is a graph input (overridable default) is not a constant."""
+    import numpy as np
+    import onnx_ir as ir
+    from onnxscript.rewriter.rules.common import _remove_optional_bias as mod
+    from pyvc.values import SReal, SBool
+    I = Interp(ctx)
+    W = World(I)
+    cls = getattr(mod, which)
+    rule = SObj(cls, "rule")
+    n_in = {"RemoveOptionalBiasFromQLinearConv": 9}.get(which, 3)
+    ins = [W.value(f"in{i}", dims=None, rt=[], dtype=ir.DataType.FLOAT) for i in range(n_in - 1)]
+    e = ctx.const("bias_element", z3.RealSort())
+    ctx.witness["bias_element"] = e
+    known = ctx.choose(2, "bias constant") == 0
+    overridable = known and ctx.choose(2, "bias is also a graph input") == 1
+    t = SObj(ir.Tensor, "bias_tensor")
+
+    class BoolArr:
+        def __init__(self, generic):
+            self.generic = generic
+
+        def all(self):
+            allz = ctx.bool("all_elements_satisfy")
+            ctx.assume(z3.Implies(allz, self.generic))   # the generic element is one of the elements
+            return SBool(allz)
+
+        def any(self):
+            anyz = ctx.bool("some_element_satisfies")
+            ctx.assume(z3.Implies(self.generic, anyz))
+            return SBool(anyz)
+    BoolArr.all._pyvc_native = True
+    BoolArr.any._pyvc_native = True
+
+    class Arr:
+        pass
+    arr = Arr()
+
+    def numpy_():
+        raise AssertionError
+    I.models[numpy_] = lambda interp: arr
+    t.fields["numpy"] = numpy_
+    I.models[np.equal] = lambda interp, a_, v: BoolArr(e == z3.RealVal(repr(float(v)))) if a_ is arr else (_ for _ in ()).throw(AssertionError("np.equal on something else"))
+    b = W.value("b", dims=None, rt=[], dtype=ir.DataType.FLOAT, const=(t if known else None), initializer=known, graph_input=overridable)
+    I.models[ir.convenience.get_const_tensor] = lambda interp, v: v.fields.get("const_value")
+    attrs = {"group": 2}
+    node = W.node(cls.op_type, ins + [b], attrs=attrs)
+    out = node.fields["outputs"][0]
+    from .c05_rules import with_producer, OpRec
+    with_producer(I, out, node)
+    fired = I.truth(I.call(I.getattr(rule, "check"), [None], {"b": b}))
+    if not fired:
+        ctx.cover(f"{which}.check_failed")
+        return
+    ctx.check(f"C05.rules.{which}.fires_only_for_a_constant_bias", known, CL09)
+    ctx.check(f"C05.rules.{which}.fires_only_if_every_bias_element_is_zero", e == 0, CL09 + " — the optional bias defaults to zero")
+    ctx.check(f"C05.rules.{which}.does_not_fire_on_an_overridable_initializer", not overridable,
+              "C05 / C04: 'initializers that are also graph inputs ... are never folded into constants'")
+    r = I.call(I.getattr(rule, "rewrite"), [OpRec()], {"out": out})
+    ctx.check(f"C05.rules.{which}.replacement_is_the_same_operator_without_the_bias", isinstance(r, Call) and r.op == cls.op_type and list(r.args) == ins and
+              set(r.kwargs) == set(attrs) and r.kwargs["group"] is node.fields["attributes"]["group"], CL09)
+
+
+for _w in ("RemoveOptionalBiasFromConv", "RemoveOptionalBiasFromConvTranspose", "RemoveOptionalBiasFromQLinearConv", "RemoveOptionalBiasFromGemm"):
+    SCENARIOS.append(Scenario(f"C05.rules.remove_optional_bias.{_w}", (lambda w: lambda ctx: s_remove_optional_bias(ctx, w))(_w),
+                              [("onnxscript/rewriter/rules/common/_remove_optional_bias.py", "_RemoveOptionalBias.check"),
+                               ("onnxscript/rewriter/rules/common/_remove_optional_bias.py", "_RemoveOptionalBias.rewrite")],
+                              trusted=["ONNX Conv / ConvTranspose / QLinearConv / Gemm: an omitted bias is zero", "numpy: (a == 0).all() implies every element is 0"],
+                              assumptions=["floats treated as reals"]))
